@@ -84,6 +84,11 @@ var schedAssumptions = append([]string{
 }, commonAssumptions...)
 
 var specs = []spec{
+	{ID: "C08", Pkg: ".", Level: "model_checking", Instrument: true, RacePass: true, Procs: 1,
+		InstrPkgs:  []string{".", "pkg/storage"},
+		StmtPoints: []string{"partDisk.Reader", "fileDisk.Finalize", "fileDisk.Reader", "fileDisk.NewPart", "fileRAM.Finalize", "fileRAM.Reader"},
+		Rule:        "all interleavings with at most b deviations (b=2 quick / 3 thorough for two readers, one more for one reader) of a writer (scripts: plain frames, part / segment rotation that finalises and removes disk files, window slide, parameter change, a three-times longer segment that raises the target duration, Close) with 1-2 readers each running a 2-request script over the whole URL alphabet (multivariant, media playlist plain / blocking / delta, init, segment, part, preload hint, expired, unknown, and follow-ups of a URI taken from the reader's own previous playlist), for Low-Latency / fMP4 / MPEG-TS with RAM and Directory storage; scheduling points: the library's synchronisation operations plus every statement of the storage functions that run outside the muxer mutex; distinct = distinct (scenario, statuses); the data-race clause is covered by a separate free-running -race pass over the same bodies (not exhaustive)",
+		Assumptions: schedAssumptions},
 	{ID: "C19", Pkg: ".", Level: "exploration", Procs: 2,
 		Rule:        "complete grid: constant sample duration in {90000/f ticks for 17 (all divisor and 7-/11-multiple) frame rates 1..120, 3003, 1501, 3754 at 90 kHz; 1024 samples at the 13 standard AAC rates; Opus 2.5-60 ms} x PartMinDuration 50..2000 ms step 50 (5) x SegmentMinDuration {1, 2 s} x key-frame spacing {every sample, 0.5 s, 1 s, 2.5 s, irregular}, each run long enough for three segments; every playlist served after a part is published is checked; distinct = distinct (grid point, observed part duration and PART-TARGET)",
 		Assumptions: e1Assumptions},
